@@ -29,7 +29,7 @@ import RV.Drv.Finder
 import RV.Drv.DepCtl
 import RV.Drv.ExecutorX
 import RV.Drv.TRBind
-import RV.Drv.Extra1
+import RV.Drv.ClosedLoopBG
 import RV.Drv.Extra2
 namespace RV.Drv
 /-- suite name ↦ handler.  One file per suite so that suites can be developed independently. -/
@@ -64,7 +64,7 @@ def lookup : String → Option Handler
   | "depctl" => some DepCtl.handle
   | "executorx" => some ExecutorX.handle
   | "trbind" => some TRBind.handle
-  | "extra1" => some Extra1.handle
+  | "closedloopbg" => some ClosedLoopBG.handle
   | "extra2" => some Extra2.handle
   | _ => none
 end RV.Drv
